@@ -60,8 +60,6 @@ static void inorder(const SplayNode<mem_node *> *n, std::vector<const mem_node *
     inorder(n->right, v);
 }
 
-static const size_t GUARD = 64;
-
 static std::string runSeq(const std::vector<std::string> &a)
 {
     std::ostringstream o;
@@ -71,6 +69,7 @@ static std::string runSeq(const std::vector<std::string> &a)
     for (size_t i = 1; i < a.size() && !dead; ++i) {
         auto f = splitc(a[i]);
         if (i > 1) o << " ";
+        std::ostringstream tok; // the token is emitted only when the operation returned
         try {
             if (f[0] == "w" || f[0] == "W") {
                 std::string data;
@@ -84,31 +83,32 @@ static std::string runSeq(const std::vector<std::string> &a)
                 std::unique_ptr<char[]> src(new char[data.size() ? data.size() : 1]);
                 memcpy(src.get(), data.data(), data.size());
                 const bool ok = h->write(StoreIOBuffer(data.size(), std::stoll(f[1]), src.get()));
-                o << (ok ? "w" : "w=false");
+                tok << (ok ? "w" : "w=false");
             } else if (f[0] == "f") {
-                o << "f=" << h->freeDataUpto(std::stoll(f[1]));
+                tok << "f=" << h->freeDataUpto(std::stoll(f[1]));
             } else if (f[0] == "c") {
                 const size_t len = std::stoull(f[2]);
                 // exact-size heap buffer (ASan red zones) pre-filled with a marker
                 std::unique_ptr<char[]> buf(new char[len ? len : 1]);
                 memset(buf.get(), 0xEE, len ? len : 1);
                 const ssize_t n = h->copy(StoreIOBuffer(len, std::stoll(f[1]), buf.get()));
-                if (n < 0 || static_cast<size_t>(n) > len) o << "c=BAD-COUNT" << n;
+                if (n < 0 || static_cast<size_t>(n) > len) tok << "c=BAD-COUNT" << n;
                 else {
-                    o << "c=" << n << ":" << tohex(buf.get(), n);
+                    tok << "c=" << n << ":" << tohex(buf.get(), n);
                     for (size_t k = n; k < len; ++k)
-                        if (static_cast<unsigned char>(buf[k]) != 0xEE) { o << ":BAD-WROTE-PAST-COUNT"; break; }
+                        if (static_cast<unsigned char>(buf[k]) != 0xEE) { tok << ":BAD-WROTE-PAST-COUNT"; break; }
                 }
             } else if (f[0] == "h") {
-                o << "h=" << (h->hasContigousContentRange(Range<int64_t>(std::stoll(f[1]), std::stoll(f[2]))) ? 1 : 0);
+                tok << "h=" << (h->hasContigousContentRange(Range<int64_t>(std::stoll(f[1]), std::stoll(f[2]))) ? 1 : 0);
             } else if (f[0] == "e") {
-                o << "e=" << h->endOffset();
+                tok << "e=" << h->endOffset();
             } else if (f[0] == "l") {
-                o << "l=" << h->lowestOffset();
+                tok << "l=" << h->lowestOffset();
             } else {
-                o << "ERR bad-op";
+                tok << "ERR bad-op";
                 dead = true;
             }
+            o << tok.str();
         } catch (const AssertFailure &) {
             o << "ASSERT";
             dead = true;
@@ -117,6 +117,7 @@ static std::string runSeq(const std::vector<std::string> &a)
             dead = true;
         }
     }
+    if (dead) return o.str() + " | dead"; // h is leaked: its state may be half-updated
     o << " | ";
     std::vector<const mem_node *> v;
     inorder(h->nodes.head, v);
@@ -127,7 +128,7 @@ static std::string runSeq(const std::vector<std::string> &a)
     if (h->nodes.elements != v.size()) o << " BAD-ELEMENTS";
     for (const auto n : v)
         if (n->nodeBuffer.data != n->data) { o << " BAD-NODE-DATA-POINTER"; break; }
-    if (!dead) delete h;
+    delete h;
     return o.str();
 }
 
